@@ -157,6 +157,8 @@ def cases(tier, seed):
     out.append(dict(base, sizes=[40, 0], epoch=True, encrypted=True))
     # files around the 16 MiB read size of the snapshot stream (exactly one read, one read plus a tail, two reads)
     out.append(dict(base, min=1 << 20, max=1 << 21, sizes=[(1 << 24) + 70001, 3, 1 << 24], concurrent=3))
+    # ... and with chunks much smaller than the read block (hundreds of chunks complete while the file is still being read)
+    out.append(dict(base, min=1 << 15, max=1 << 16, sizes=[(1 << 24) + 70001, 5, (1 << 20) + 1], concurrent=2))
     # a directory reachable by two routes inside the argument (symlinked sibling)
     out.append(dict(base, sizes=[30, 70, 5, 0], nested=True, alias=True))
     out.append(dict(base, sizes=[64, 1], nested=True, alias=True, encrypted=True, concurrent=1))
